@@ -20,13 +20,13 @@ CLAIMS = {
  "C08": ("pairgraph", "AlgebraIsMath invariant on the transcribed lazy adaptors (exact mathematical result, no repeats, left-operand objects, size_hint brackets at every prefix, predicates) over every pair of slot layouts; replay of every (pair, op, prefix) with next / clone / Debug / fold cross-checked and operands re-observed unchanged."),
  "C14": ("pairgraph", "EqIsExtensional invariant (eq.rs transcription == extensional equality, reflexive, symmetric) over all pairs of layouts and several capacity pairs; replay of a == b, b == a, a == a, b == b."),
  "C15": ("mapgraph", "Clone modelled with clone tags (one clone per key and value object), followed by an operation on either copy and the drop of either copy; TLC checks independence and conservation, the replay checks clone counts per source object, equality, the untouched copy and the ledger."),
+ "C04": ("micro+mapgraph", "MapMicro.tla models slot memory at callback granularity (every slot uninit/live/moved/dropped, len, locals, the half-built clone / collection); TLC explores every operation from every state with a panic injected at every callback (and the unwinding that follows) and checks Safe / IdleWellFormed. Every behaviour TLC prints is replayed into the real crate with the panic injected at that callback: the safety predicate (no double destruction, no use of dead/uninitialised data, survivors well-formed, usable, droppable) gates; conformance of the code's callback sequence, outcome and survivors to the model is reported as drift (0 on this tree). A second sweep injects at every callback the CODE makes for every transition of the macro graph."),
+ "C17": ("micro+mapgraph", "MapMicro.tla with Adv = TRUE: every key comparison may return either truth value; TLC explores the complete decision tree of every operation (incl. the index stack / split_at_mut logic of get_disjoint_mut with its bounds-check panic edges) and checks Safe (slot accesses inside the live prefix, distinct live slots handed out as &mut, len <= Cap, nothing destroyed twice). Every complete path is replayed into the real crate with a scripted Eq; safety predicate gates, path conformance (comparisons asked, outcome, survivors) is drift. A second sweep enumerates the real code's own decision tree depth-first for every macro-graph transition."),
  "C20": ("mapgraph", "Ser/De modelled as announce len + emit in slot order / fold of inserts; replay round-trips through serde_json and bincode (legacy, fixed length prefix = announced length) into targets of capacity len, N and N+1."),
 }
 NA = {
 }
 PENDING = {
- "C04": "engine under construction (callback-granular micro model + panic injection sweep)",
- "C17": "engine under construction (adversarial-Eq micro model + decision-tree sweep)",
 }
 NOTE = "exhaustive within the TLC constants recorded in the evidence (capacities 0..2 quick, plus 3 thorough; 3-4 key classes; 2 distinguishable key objects per class; 2 value contents); element types are the harness' instrumented plain-old-data Key/Val; TLC, rustc and std trusted; the harness holds no model logic, all expected values come from TLC's emitted transitions"
 
@@ -58,6 +58,8 @@ def main():
         "engines": [
             {"name": "pairgraph", "path": "spec/PairSpec.tla + harness/src/pair.rs", "serves_properties": ["C06", "C08", "C14"],
              "kind_free_text": "TLC state graph of two containers with the read-only binary operations, replayed into the real crate"},
+            {"name": "micro", "path": "spec/MapMicro.tla + harness/src/micro.rs + harness/src/sweep.rs", "serves_properties": ["C04", "C17"],
+             "kind_free_text": "callback-granular TLA+ model of slot memory (panic at every callback / every outcome of every key comparison), every behaviour replayed into the real crate"},
             {"name": "mapgraph", "path": "spec/MapSpec.tla + harness/src/replay.rs", "serves_properties": sorted(CLAIMS),
              "kind_free_text": "TLC state graph of one container (Map.tla/MapOps.tla refining Dict.tla) emitted as labelled transitions and replayed into the real crate"},
         ],
